@@ -6,7 +6,7 @@ Stores /verif/seeded/<pid>_<variant>/ {patch.diff, demo/, meta.json} when confir
 import os, sys, subprocess, json, shutil, time
 ROOT = os.path.dirname(os.path.dirname(os.path.abspath(__file__)))
 def sh(cmd, cwd=None, timeout=1800):
-    p = subprocess.run(cmd, shell=True, cwd=cwd, capture_output=True, text=True, timeout=timeout,
+    p = subprocess.run(cmd, shell=True, cwd=cwd, stdin=subprocess.DEVNULL, capture_output=True, text=True, timeout=timeout,
                        env=dict(os.environ, CARGO_NET_OFFLINE='true', VERIF_EVIDENCE_DIR='/root/scratch/mut_evidence'))
     return p.returncode, p.stdout + p.stderr
 wt, var, pid = sys.argv[1], sys.argv[2], sys.argv[3]
